@@ -167,6 +167,78 @@ def _run_pool(fn, tasks, workers, hard_s):
     return out
 
 
+def _child_batch(fn, tasks, conn):
+    try:
+        for t in tasks:
+            try:
+                conn.send(fn(t))
+            except BaseException as e:  # noqa: BLE001
+                conn.send((t[0], "error", 0.0, None, f"{type(e).__name__}: {e}"))
+    finally:
+        conn.close()
+        os._exit(0)
+
+
+def _run_pool_batched(fn, tasks, workers, hard_s, batch):
+    """like _run_pool, for very many small tasks: one forked process solves a batch of tasks one after the other and reports
+    each result as it is found (a fork per task costs tens of milliseconds in the parent once the task list is large).
+    A worker that reports nothing for hard_s seconds is killed: the task it was on is unknown, the rest of its batch is re-queued."""
+    import multiprocessing as mp
+
+    ctx = mp.get_context("fork")
+    queue = [tasks[i:i + batch] for i in range(0, len(tasks), batch)]
+    queue.reverse()
+    running = {}
+    out = []
+    while queue or running:
+        while queue and len(running) < workers:
+            b = queue.pop()
+            pc, cc = ctx.Pipe(duplex=False)
+            pr = ctx.Process(target=_child_batch, args=(fn, b, cc), daemon=True)
+            pr.start()
+            cc.close()
+            _live.add(pr)
+            running[pr] = [b, pc, time.time(), 0]   # batch, pipe, last progress, results received
+        done = []
+        for pr, st in running.items():
+            b, pc, last, got = st
+            progressed = False
+            try:
+                while pc.poll(0):
+                    out.append(pc.recv())
+                    st[3] += 1
+                    st[2] = time.time()
+                    progressed = True
+            except EOFError:
+                pass
+            if st[3] >= len(b):
+                done.append(pr)
+            elif not pr.is_alive() and not pc.poll(0.05):
+                # died without finishing: the task it was on is an error, the rest goes back
+                cur = b[st[3]]
+                out.append((cur[0], "error", time.time() - st[2], None, "worker died"))
+                rest = b[st[3] + 1:]
+                if rest:
+                    queue.append(rest)
+                done.append(pr)
+            elif not progressed and time.time() - st[2] > hard_s:
+                pr.kill()
+                cur = b[st[3]]
+                out.append((cur[0], "unknown", time.time() - st[2], None, "hard timeout (solver ignored its soft limit)"))
+                rest = b[st[3] + 1:]
+                if rest:
+                    queue.append(rest)
+                done.append(pr)
+        for pr in done:
+            _, pc, _, _ = running.pop(pr)
+            pc.close()
+            pr.join(timeout=1)
+            _live.discard(pr)
+        if not done:
+            time.sleep(0.005)
+    return out
+
+
 def _run_portfolio(groups, workers, hard_s):
     """groups: {oid: [(fn, task), ...]}; the first definitive (sat/unsat) answer of a group wins and its
     siblings are killed.  returns {oid: (backend_label, result tuple)}"""
@@ -248,7 +320,8 @@ def discharge(tasks, timeout_ms=60000, seed=0, cvc5_fallback=True, cvc5_recheck=
 
     def budget(oid):
         if expect[oid] != "unsat":
-            return min(timeout_ms, 3000)   # reachability covers are sanity checks: unknown is not a failure (phase 1 only)
+            # reachability covers are sanity checks: unknown is not a failure (phase 1 only); tighter when there are very many
+            return min(timeout_ms, 3000 if len(tasks) <= 3000 else 1000)
         if oid.startswith("canary:"):
             return min(timeout_ms, 60000)  # a canary only needs one refuted obligation (sat queries: seed-dependent run times)
         return timeout_ms
@@ -256,7 +329,11 @@ def discharge(tasks, timeout_ms=60000, seed=0, cvc5_fallback=True, cvc5_recheck=
     ztasks = [(oid, smt, min(quick_ms, budget(oid)), seed) for oid, smt, exp in tasks]
     ztasks.sort(key=lambda t: expect[t[0]] != "unsat")
     phase2 = []
-    for oid, r, secs, model, reason in _run_pool(_z3_task, ztasks, workers, quick_ms / 1000 * 1.5 + 5):
+    if len(ztasks) > 3000:
+        phase1 = _run_pool_batched(_z3_task, ztasks, workers, quick_ms / 1000 * 1.5 + 5, batch=48)
+    else:
+        phase1 = _run_pool(_z3_task, ztasks, workers, quick_ms / 1000 * 1.5 + 5)
+    for oid, r, secs, model, reason in phase1:
         if r == "unknown" and budget(oid) > quick_ms:
             phase2.append((oid, secs))
             continue
@@ -279,7 +356,13 @@ def discharge(tasks, timeout_ms=60000, seed=0, cvc5_fallback=True, cvc5_recheck=
             results[oid] = Result(oid, r, label, secs0[oid] + secs, model, reason)
     if cvc5_recheck:
         todo = [oid for oid, res in results.items() if res.status == "unsat" and res.backend.startswith("z3") and expect[oid] == "unsat"]
-        for oid, r, secs, _, _ in _run_pool(_cvc5_task, [(oid, smts[oid], min(timeout_ms, 120000), seed) for oid in todo], workers, 140):
+        if len(todo) > 1500:
+            # cvc5 needs seconds per query: for very large families re-check an evenly spaced sample of 1,500 obligations
+            step = len(todo) / 1500.0
+            todo = [todo[int(i * step)] for i in range(1500)]
+        ctasks = [(oid, smts[oid], min(timeout_ms, 120000), seed) for oid in todo]
+        rec = _run_pool_batched(_cvc5_task, ctasks, workers, 140, batch=48) if len(ctasks) > 3000 else _run_pool(_cvc5_task, ctasks, workers, 140)
+        for oid, r, secs, _, _ in rec:
             results[oid].recheck = r
             if r == "sat":
                 results[oid].status = "error"
